@@ -71,6 +71,10 @@ CONSTANTS OpSet,       \* names of the public methods that may be called
           CertKinds,   \* bodies the certificate URL may serve
           AltSet,      \* numbers of rel="alternate" Link headers
           InitStates,  \* set of <<order, authorization, challenge>> statuses to start from
+          CallOK(_, _, _, _), \* CallOK(op, order, authz, challenge): may op be the FIRST call from this server state
+                       \* (generators use it to skip initial states that differ only in resources op never sees)
+          EnvOK(_),    \* EnvOK(r): may the environment change resource r ("ord" | "az" | "ch") now (generators use it
+                       \* to skip changes of resources the pending request does not show)
           FixNegRA,    \* TRUE: a non-positive poll delay falls back to the default (repaired code)
           Mut          \* "none", or the name of a deliberately wrong client (non-vacuity of P1..P9)
 
@@ -136,9 +140,9 @@ EnvTo(o2, a2, c2) ==
   /\ UNCHANGED <<acct, finSeen, nrep, cvars>>
 EnvStep ==
   /\ pc = "wait" /\ nenv < MaxEnv /\ nrep < MaxReq
-  /\ \/ \E o2 \in (IF Malformed THEN OrdSt \cup {Weird} ELSE OrdNext(ord, az)) \ {ord} : EnvTo(o2, az, ch)
-     \/ \E a2 \in (IF Malformed THEN AzSt \cup {Weird} ELSE AzNext(az, ch)) \ {az} : EnvTo(ord, a2, ch)
-     \/ \E c2 \in (IF Malformed THEN ChSt \cup {Weird} ELSE ChNext(ch)) \ {ch} : EnvTo(ord, az, c2)
+  /\ \/ EnvOK("ord") /\ \E o2 \in (IF Malformed THEN OrdSt \cup {Weird} ELSE OrdNext(ord, az)) \ {ord} : EnvTo(o2, az, ch)
+     \/ EnvOK("az") /\ \E a2 \in (IF Malformed THEN AzSt \cup {Weird} ELSE AzNext(az, ch)) \ {az} : EnvTo(ord, a2, ch)
+     \/ EnvOK("ch") /\ \E c2 \in (IF Malformed THEN ChSt \cup {Weird} ELSE ChNext(ch)) \ {ch} : EnvTo(ord, az, c2)
 
 -----------------------------------------------------------------------------
 (* Client *)
@@ -159,6 +163,7 @@ HasBundle(n) == n \in {"CreateOrderCert", "FetchCert"}
 
 Call(n, b) ==
   /\ pc = "idle" /\ calls < MaxCalls
+  /\ calls = 0 => CallOK(n, ord, az, ch)
   /\ IF HasBundle(n) THEN b \in Bundles ELSE b = FALSE
   /\ op' = [name |-> n, bundle |-> b] /\ cur' = First(n) /\ pc' = "req" /\ calls' = calls + 1
   /\ tries' = 0 /\ delay' = 0 /\ slept' = 0 /\ mustWait' = FALSE /\ cancelled' = FALSE
